@@ -54,6 +54,11 @@ def cases(draw):
     s["family"] = fam
     s["metamorphic"] = draw(st.sampled_from(["none", "none", "shift", "scale"]))
     s["static_rows"] = draw(st.sampled_from(["as-is", "as-is", "reversed", "shuffled"]))     # the static table has its own volume column
+    if draw(st.integers(0, 7)) == 0:
+        # a fine volume / pressure grid (hundreds of points, steps of ~1e-3 in ln V) with a lattice block
+        s["ntv"] = draw(st.sampled_from([161, 201, 321, 401]))
+        s["nt"] = min(s["nt"], 2)
+        s["lattice"] = True
     return s
 
 
@@ -222,7 +227,7 @@ def sub_end_to_end(ctx):
         cl = ["interp-" + s["interpolator"], "family-" + s["family"], "system-" + s["system"],
               "fill-requested" if s["apply_system"] else "no-fill", "lattice" if s["lattice"] else "no-lattice",
               "metamorphic-" + s["metamorphic"], "non-orthotropic-keys" if nonortho else "orthotropic-keys",
-              "static-rows-" + s.get("static_rows", "as-is")]
+              "static-rows-" + s.get("static_rows", "as-is"), "NTV>150" if s["ntv"] > 150 else "NTV<=41"]
         ctx.case(s, nt, classes=cl)
 
     ctx.run_given(body, cases(), max_examples=ctx.n(160, 10000), shrink=not ctx.quick)
